@@ -432,9 +432,29 @@ def _apply_projection(obj, east, north, inverse=False):
     return obj(east, north, inverse=inverse)
 
 
-def spell_projection(rng, obj):
-    """The same projection as a callable object, a plain function or a functools.partial (all carry the reference's metadata)."""
+def _forward_only(obj, east, north):
+    return obj(east, north)
+
+
+def spell_projection(rng, obj, two_args=False):
+    """
+    The same projection as a callable object, a plain function or a functools.partial (all carry the reference's metadata). With
+    two_args (grid / scatter only: they never ask for the inverse) also in the documented two-argument form
+    ``projection(easting, northing)`` - a lambda, a plain def or a partial WITHOUT an ``inverse`` keyword and without **kwargs.
+    """
     roll = rng.random()
+    if two_args and rng.random() < 0.45:
+        if roll < 0.35:
+            out = lambda east, north: obj(east, north)  # noqa: E731
+        elif roll < 0.7:
+            def out(easting, northing):
+                return obj(easting, northing)
+        else:
+            out = functools.partial(_forward_only, obj)
+        out.arity = 2
+        out.kind = obj.kind
+        out.describe = obj.describe
+        return out
     if roll < 0.4:
         return obj
     if roll < 0.7:
@@ -451,15 +471,19 @@ def spell_projection(rng, obj):
 
 
 def projection_spelling(projection):
+    suffix = "_two_arguments" if getattr(projection, "arity", None) == 2 else ""
     if isinstance(projection, functools.partial):
-        return "partial"
+        return "partial" + suffix
     if type(projection).__name__ == "function":
-        return "function"
+        return ("lambda" if projection.__name__ == "<lambda>" else "function") + suffix
     return "callable_object"
 
 
-def spell_call(rng, kwargs):
-    """Rewrite the arguments of one grid/profile/scatter call into an equivalent spelling (in place)."""
+def spell_call(rng, kwargs, inverse=False):
+    """
+    Rewrite the arguments of one grid/profile/scatter call into an equivalent spelling (in place). inverse=True (profile): the
+    projection must keep its ``inverse`` keyword.
+    """
     if "region" in kwargs:
         kwargs["region"] = spell_sequence(rng, kwargs["region"])
     if "shape" in kwargs:
@@ -469,7 +493,7 @@ def spell_call(rng, kwargs):
     if "extra_coords" in kwargs:
         kwargs["extra_coords"] = spell_extra_coords(rng)
     if kwargs.get("projection") is not None and hasattr(kwargs["projection"], "describe"):
-        kwargs["projection"] = spell_projection(rng, kwargs["projection"])
+        kwargs["projection"] = spell_projection(rng, kwargs["projection"], two_args=not inverse)
     return kwargs
 
 
